@@ -42,11 +42,64 @@ class C04(_C03.C03):
     """shares the correspondence (generator, real glue, judge) with C03; the laws are its own"""
     id = "C04"
     lean_modules = ["PkgProofs.Props.C04"]
-    theorems = []
+    theorems = [
+        "C04.ne_is_not_eq", "C04.compat_is_ge_and_prefix", "C04.respects_version_eq", "C04.local_blind",
+        "C04.ge_up_closed", "C04.le_down_closed", "C04.ge_or_le", "C04.lt_sub_le", "C04.gt_sub_ge",
+        "C04.lt_gt_exclude_V_and_its_locals",
+        "AL.admits_key", "AL.admits_local_blind", "AL.cmp_split", "AL.zpp_strip", "C03.compare_eq_spec",
+    ]
+    partial = [
+        "laws 2-10 are stated for clause texts that scan as a version (C03.Clause for laws 3 and 4); that "
+        "Specifier.__init__ only builds such clauses is tied by correspondence (spec.parse) and C12, not proved here",
+        "`===` is exempt from laws 3 and 4 by the statement (string equality)"]
     rule = ("correspondence as C03; laws: tuples chosen jointly — one V for two or three clauses, candidates related "
             "by equality (other spelling, trailing zeros), by adding a local label, or by the version order; "
             "every law evaluated on Specifier.contains(…, prereleases=True) of the real code only")
-    budget = {"quick": (5000, 12000), "thorough": (150000, 300000)}
+    budget = {"quick": (12000, 40000), "thorough": (300000, 800000)}
+
+    def gen_cases(self, rng, n):
+        """related tuples: the clauses and candidates one law relates, sent as separate contains() cases"""
+        self._label = {}
+        out = 0
+        while out < n:
+            k = rng.random()
+            if k < 0.2:
+                for case in super().gen_cases(rng, 1):
+                    yield case
+                    out += 1
+                continue
+            op = rng.choice(ORDER_OPS)
+            wild = op in ("==", "!=") and rng.random() < 0.4
+            v = R.spec_version(rng, op, wild)
+            c = R.candidate_near(rng, v)
+            if k < 0.4:            # == / != on the same V;  ~= with >= and the prefix clause
+                if rng.random() < 0.5:
+                    v = R.spec_version(rng, "==", wild)
+                    clauses = [("==", v, wild), ("!=", v, wild)]
+                else:
+                    v = R.spec_version(rng, "~=", False)
+                    p = dict(v, release=v["release"][:-1], pre=None, post=None, dev=None)
+                    clauses = [("~=", v, False), (">=", v, False), ("==", p, True)]
+                c = R.candidate_near(rng, v)
+                cands = [c]
+            elif k < 0.6:          # equal candidates
+                clauses, cands = [(op, v, wild)], [c, respell_equal(rng, c)]
+            elif k < 0.8:          # with and without local label
+                v["local"] = None
+                if c["local"] is None:
+                    c["local"] = R.local(rng)
+                clauses, cands = [(op, v, wild)], [c, R.pub(c)]
+            else:                  # V itself, V + label, against < <= >= >
+                v = R.spec_version(rng, "<", False)
+                clauses = [(o, v, False) for o in ("<", "<=", ">=", ">")]
+                cands = [respell_equal(rng, v), dict(respell_equal(rng, v), local=R.local(rng)), R.candidate_near(rng, v)]
+            for (o, vv, w) in clauses:
+                s = R.spell_clause(rng, o, vv, w)
+                for cc in cands:
+                    args = [core.enc(s), "~", core.enc(GV.spell(rng, cc)), "1"]
+                    self._label[("spec.contains", tuple(args))] = "tuple:" + R.situation(o, vv, w, cc)
+                    yield ("spec.contains", args)
+                    out += 1
 
     def gen_laws(self, rng, n):
         k = 0
